@@ -176,7 +176,7 @@ pub fn run(ctx: &mut Ctx) {
     }
     let w = match world(ctx, false) { Some(w) => w, None => return };
     let w2 = match world(ctx, false) { Some(w) => w, None => return };
-    let n = if ctx.thorough() { 4 * ctx.nshards } else { ctx.nshards };
+    let n = if ctx.thorough() { 12 * ctx.nshards } else { ctx.nshards };
     for _ in 0..n {
         idx += 1; swap_case(ctx, idx, &w);
         idx += 1; channel_id_case(ctx, idx, &w);
